@@ -114,6 +114,176 @@ let do_lv line rest =
      | _ -> report line "bad LV line")
   | _ -> report line "bad LV line"
 
+(* ------------------------------------------------------------------------------------------------------------------ *)
+(* extension stage (C06_Convex2_Defs): QF CQ KK LM GB GS lines and FN trid / rotated / maxq / maxhilb                    *)
+(* ------------------------------------------------------------------------------------------------------------------ *)
+let ext_total = ref 0
+let rows_f (s : string) : float list list = List.map flist (List.filter (fun t -> trim t <> "") (split_on ';' s))
+let rows_q (s : string) : q list list = List.map (List.map q_of_float) (rows_f s)
+let parts line rest k =
+  match split_str " = " rest with
+  | [lhs; rhs] -> (match split_str " | " lhs, split_str " | " rhs with
+                   | l, [vs; gs] -> k l (pf vs) (flist gs)
+                   | _ -> report line "bad line")
+  | _ -> report line "bad line"
+let all_abs (ll : float list list) = List.concat (List.map (List.map Float.abs) ll)
+let check_ext line mv mg fv fg extra = incr ext_total; check_vg line mv mg fv fg extra
+
+let q_sub a b = qminus a b
+let q_abs_f (x : q) = Float.abs (float_of_q x)
+
+let do_qf line rest =
+  parts line rest (fun l fv fg ->
+    match l with
+    | [_n; a; b; aobs; xs] ->
+      let a' = qlist a and bq = rows_q b and ao = rows_q aobs and x = qlist xs in
+      let am = gram1 qops bq in
+      (* the matrix the constructor built (read off the gradient of the library) is I + B B' *)
+      incr ext_total;
+      let worst = ref 0.0 in
+      List.iter2 (fun r1 r2 -> List.iter2 (fun u v -> worst := Float.max !worst (q_abs_f (q_sub u v))) r1 r2) am ao;
+      if !worst > 1e-9 *. (1.0 +. max_abs (List.concat (rows_f aobs))) then report line (Printf.sprintf "observed matrix differs from I + B B' by %h" !worst);
+      (* symmetric up to rounding: hypothesis of the expansion theorem *)
+      let n = List.length ao in
+      let asym = ref 0.0 in
+      List.iteri (fun i r -> List.iteri (fun j v -> if j < n then asym := Float.max !asym (q_abs_f (q_sub v (List.nth (List.nth ao j) i)))) r) ao;
+      incr ext_total;
+      if !asym > 1e-12 *. (1.0 +. max_abs (List.concat (rows_f aobs))) then report line (Printf.sprintf "observed matrix is not symmetric (%h)" !asym);
+      check_ext line (quad_v qops a' am x) (quad_g qops a' am x) fv fg (flist xs @ flist a @ all_abs (rows_f aobs))
+    | _ -> report line "bad QF line")
+
+let do_cq line rest =
+  parts line rest (fun l fv fg ->
+    match l with
+    | [_h; p; q'; r; xs] ->
+      let pq = rows_q p and qq = qlist q' and x = qlist xs in
+      check_ext line (cq_v qops pq qq (q_of_float (pf r)) x) (cq_g qops pq qq x) fv fg (flist xs @ flist q' @ [pf r] @ all_abs (rows_f p))
+    | _ -> report line "bad CQ line")
+
+let do_kk line rest =
+  parts line rest (fun l fv fg ->
+    match l with
+    | [_n; k; off; xs] ->
+      let kq = rows_q k and x = qlist xs in
+      check_ext line (kinks_v qops kq (q_of_float (pf off)) x) (kinks_g qops kq x) fv fg (flist xs @ [pf off] @ all_abs (rows_f k))
+    | _ -> report line "bad KK line")
+
+let ext_kernel (id : string) =
+  let base = if starts id "s-" || starts id "m-" then String.sub id 2 (String.length id - 2) else id in
+  match base with
+  | "pinball" -> Some (k_pinball_v qops (q_of_float 0.5), k_pinball_g qops (q_of_float 0.5))
+  | _ -> loss_kernel base (q_of_float 0.5)
+
+let lm_like line kv kg data l1 l2 cw x fv fg extra =
+  let lf = loss_v qops kv and gf = loss_g kg in
+  check_ext line (lin_v qops lf data l1 l2 cw x) (lin_g qops gf data l1 l2 cw x) fv fg extra
+
+let zero_q = q_of_float 0.0
+let do_lm line rest =
+  parts line rest (fun l fv fg ->
+    match l with
+    | [head; ins; tgs; xs] ->
+      (match split_on ' ' (trim head) with
+       | [id; l1; l2; isz; tsz] ->
+         (match ext_kernel id with
+          | None -> incr skipped
+          | Some (kv, kg) ->
+            let isize = int_of_string isz and tsize = int_of_string tsz in
+            let inputs = rows_q ins and targets = rows_q tgs and x = qlist xs in
+            let data = List.map2 (fun u t -> ((t, design qops (nat_of_int isize) (nat_of_int tsize) u), List.map (fun _ -> zero_q) t)) inputs targets in
+            let cw = lin_cw qops (nat_of_int isize) (nat_of_int tsize) in
+            lm_like line kv kg data (q_of_float (pf l1)) (q_of_float (pf l2)) cw x fv fg
+              (flist xs @ [Float.abs (pf l1); Float.abs (pf l2)] @ all_abs (rows_f ins) @ all_abs (rows_f tgs)))
+       | _ -> report line "bad LM head")
+    | _ -> report line "bad LM line")
+
+let do_en line rest =
+  parts line rest (fun l fv fg ->
+    match l with
+    | [head; ins; tgs; bias; xs] ->
+      (match split_on ' ' (trim head) with
+       | [id; a1; a2; _n] ->
+         (match ext_kernel id with
+          | None -> incr skipped
+          | Some (kv, kg) ->
+            let inputs = rows_q ins and targets = rows_q tgs and x = qlist xs and b = qlist bias in
+            let data = List.map2 (fun u t -> ((t, [u]), b)) inputs targets in
+            check_ext line (enet_v qops (loss_v qops kv) data (q_of_float (pf a1)) (q_of_float (pf a2)) x)
+                           (enet_g qops (loss_g kg) data (q_of_float (pf a1)) (q_of_float (pf a2)) x) fv fg
+              (flist xs @ List.map (fun v -> Float.abs (pf a1 *. v) +. Float.abs (pf a2 *. v *. v)) (flist xs) @ all_abs (rows_f tgs) @ flist bias))
+       | _ -> report line "bad EN head")
+    | _ -> report line "bad EN line")
+
+let do_gb line rest =
+  parts line rest (fun l fv fg ->
+    match l with
+    | [head; tgs; xs] ->
+      (match split_on ' ' (trim head) with
+       | [id; tsz] ->
+         (match ext_kernel id with
+          | None -> incr skipped
+          | Some (kv, kg) ->
+            let tsize = int_of_string tsz in
+            let targets = rows_q tgs and x = qlist xs in
+            let data = List.map (fun t -> ((t, identity qops (nat_of_int tsize)), List.map (fun _ -> zero_q) t)) targets in
+            let cw = List.map (fun _ -> zero_q) x in
+            lm_like line kv kg data zero_q zero_q cw x fv fg (flist xs @ all_abs (rows_f tgs)))
+       | _ -> report line "bad GB head")
+    | _ -> report line "bad GB line")
+
+let do_gs line rest =
+  parts line rest (fun l fv fg ->
+    match l with
+    | [head; grp; so; wo; tgs; xs] ->
+      (match split_on ' ' (trim head) with
+       | [id; _tsz; groups] ->
+         (match ext_kernel id with
+          | None -> incr skipped
+          | Some (kv, kg) ->
+            let ng = int_of_string groups in
+            let targets = rows_q tgs and x = qlist xs and sos = rows_q so and wos = rows_q wo in
+            let gl = List.map int_of_float (flist grp) in
+            (* output_k = so_k + x[group] * wo_k: row k of M has wo_k in column `group` (no column when the sample is not clustered) *)
+            let mk g w = List.map (fun wk -> List.init ng (fun j -> if j = g then wk else zero_q)) w in
+            let rec zip4 a b c d = match a, b, c, d with
+              | t :: a', g :: b', s0 :: c', w :: d' -> ((t, mk g w), s0) :: zip4 a' b' c' d'
+              | _ -> [] in
+            let data = zip4 targets gl sos wos in
+            let cw = List.map (fun _ -> zero_q) x in
+            lm_like line kv kg data zero_q zero_q cw x fv fg (flist xs @ all_abs (rows_f tgs) @ all_abs (rows_f so) @ all_abs (rows_f wo)))
+       | _ -> report line "bad GS head")
+    | _ -> report line "bad GS line")
+
+(* maxhilb: exact rational weights 1/(i+j+1) against the rounded doubles of the library. On a (near) tie of two |rows . x| or when the
+   selected row . x is 0 the library may legitimately return another active piece / the other sign: accept any row whose value is
+   within 1e-9 of the maximum, with either sign when its dot product vanishes *)
+let do_maxhilb line n xs fv fg =
+  incr ext_total;
+  let x = qlist xs in
+  let h = hilbert qops (nat_of_int n) in
+  let mv' = maxhilb_v qops x and mg = maxhilb_g qops x in
+  let fx = flist xs in
+  let scale = 1.0 +. Float.abs fv +. sum_abs fx in
+  if not (close mv' fv scale) then report line ("value " ^ hx (float_of_q mv'))
+  else begin
+    let ok_vec (g : q list) = List.length g = List.length fg && List.for_all2 (fun m v -> close m v (1.0 +. sum_abs fg)) g fg in
+    if not (ok_vec mg) then begin
+      let alt = List.exists (fun row ->
+        let d = dot qops row x in
+        let near = Float.abs (Float.abs (float_of_q d) -. fv) <= 1e-9 *. scale in
+        near && (ok_vec row || ok_vec (List.map (fun v -> qopp v) row)) &&
+        (Float.abs (float_of_q d) <= 1e-9 *. scale || ok_vec (if float_of_q d < 0.0 then List.map (fun v -> qopp v) row else row))) h in
+      if not alt then report line "gradient is not +-(an active row of the Hilbert matrix)"
+    end
+  end
+
+let fn_ext (name : string) =
+  match name with
+  | "trid" -> Some (trid_v qops, trid_g qops)
+  | "rotated-ellipsoid" -> Some (rotated_v qops, rotated_g qops)
+  | "maxq" -> Some (maxq_v qops, maxq_g qops)
+  | _ -> None
+
 let fn_model (name : string) =
   match name with
   | "sphere" -> Some (sphere_v qops, sphere_g qops)
@@ -138,6 +308,7 @@ let do_fn line rest =
     (match split_str " | " lhs, split_str " | " rhs with
      | [head; xs], [vs; gs] ->
        (match split_on ' ' (trim head) with
+        | ["maxhilb"; n] -> do_maxhilb line (int_of_string n) xs (pf vs) (flist gs)
         | [name; _n] ->
           (match fn_model name with
            | Some (fv, fg) -> let x = qlist xs in check_vg line (fv x) (fg x) (pf vs) (flist gs) (flist xs)
@@ -174,6 +345,7 @@ let do_cn line rest =
      | _ -> report line "bad CN line")
   | _ -> report line "bad CN line"
 
+
 let do_size line rest =
   match split_str " = " rest with
   | [lhs; rhs] ->
@@ -209,8 +381,15 @@ let () =
            | "FN" -> do_fn line rest
            | "CN" -> do_cn line rest
            | "SIZE" -> do_size line rest
+           | "QF" -> do_qf line rest
+           | "CQ" -> do_cq line rest
+           | "KK" -> do_kk line rest
+           | "LM" -> do_lm line rest
+           | "GB" -> do_gb line rest
+           | "GS" -> do_gs line rest
+           | "EN" -> do_en line rest
            | _ -> ())
         with e -> report line ("driver exception " ^ Printexc.to_string e))
     done
   with End_of_file -> ());
-  Printf.printf "MODEL-DONE checked=%d mismatches=%d skipped=%d\n" !total !mism !skipped
+  Printf.printf "MODEL-DONE checked=%d mismatches=%d skipped=%d ext=%d\n" !total !mism !skipped !ext_total
